@@ -120,6 +120,7 @@ func c10(c *Ctx) {
 	defer c.fixedDigitsUnconstrained("R10.7")
 	defer c.keywordFlagsAreOpaque("R10.8")
 	defer c.noLengthLimitsInTheParser("R10.9")
+	defer c.lookAheadIsConsumedOnce("R10.10")
 	P, R := c.P, c.R
 	R.Explain("R10.1", "case folding (flow): in imap/command every string comparison (==, !=, switch case) against a constant that contains a letter has a lower-case constant and a dynamic side all of whose producers are lower-casing operations (strings.ToLower, rfcparser.String.ToLower, bytes collected through ByteToLower), or uses strings.EqualFold; every command-registry lookup key is lowered; the case-sensitive Parser.ConsumeBytes is never called with a letter; byte comparisons against a letter constant compare a ByteToLower result.")
 	R.Explain("R10.3", "T-EXHAUST: every type implementing command.Builder is registered in Parser.commands or UIDCommandParser.commands (or dispatched explicitly), registry keys are lower-case, and every command.Payload type has a case in the session dispatch (handleCommand / handleWithMailbox / handleUID / serve / command reader).")
@@ -791,4 +792,73 @@ func controlDependent(b, target *ssa.BasicBlock) bool {
 		return ok
 	}
 	return inev(b.Succs[0]) != inev(b.Succs[1])
+}
+
+// lookAheadIsConsumedOnce (R10.10): the bytes of a literal are taken from the stream in one piece per look-ahead.
+func (c *Ctx) lookAheadIsConsumedOnce(rule string) {
+	P, R := c.P, c.R
+	R.Explain(rule, "a literal arrives as written: rfcparser.Scanner.ConsumeBytes puts the scanner's look-ahead byte in front of what it reads (found by its body: it stores the field currentByte into dst[0]), so it is right only for the first read after a token was scanned.  Wherever it is called, no second execution of a ConsumeBytes call can follow the first without a call that advances the scanner (one that reaches Scanner.advance) in between - in particular the call does not sit in a loop that reads a literal block by block.  A second read starts with the stale look-ahead byte and takes one byte too few: the literal is shifted, its tail stays in the stream and is parsed as command text.")
+	var target *ssa.Function
+	for _, f := range c.funcsInPkg("rfcparser") {
+		if rn := engine.RecvNamed(f); rn == nil || rn.Obj().Name() != "Scanner" || engine.ShortName(f) != "ConsumeBytes" {
+			continue
+		}
+		target = f
+	}
+	if target == nil {
+		R.Fail(rule, "anchor|rfcparser.(*Scanner).ConsumeBytes", "-", "rfcparser.(*Scanner).ConsumeBytes not found")
+		return
+	}
+	// does it really prepend the look-ahead?
+	prepends := false
+	for _, b := range target.Blocks {
+		for _, in := range b.Instrs {
+			if st, ok := in.(*ssa.Store); ok {
+				if _, isIx := st.Addr.(*ssa.IndexAddr); isIx {
+					if ld, ok := st.Val.(*ssa.UnOp); ok {
+						if fa, ok := ld.X.(*ssa.FieldAddr); ok && fieldOfAddr(fa) != nil && fieldOfAddr(fa).Name() == "currentByte" {
+							prepends = true
+						}
+					}
+				}
+			}
+		}
+	}
+	if !prepends {
+		R.Check(true, rule, "rfcparser.(*Scanner).ConsumeBytes|does not prepend the look-ahead", P.Pos(target.Pos()), "nothing to judge", "")
+		return
+	}
+	advances := func(cs engine.CallSite) bool {
+		sc := cs.Common().StaticCallee()
+		return sc != nil && engine.ShortName(sc) == "advance" && engine.RecvNamed(sc) != nil && engine.RecvNamed(sc).Obj().Name() == "Scanner"
+	}
+	n := 0
+	for _, f := range c.productFuncs() {
+		var sites []ssa.Instruction
+		adv := map[ssa.Instruction]bool{}
+		for _, cs := range engine.Calls(f) {
+			if cs.Instr.Parent() != f {
+				continue
+			}
+			sc := cs.Common().StaticCallee()
+			if sc == target {
+				sites = append(sites, cs.Instr)
+				continue
+			}
+			if sc != nil && len(sc.Blocks) > 0 && P.IsOwn(sc) && (advances(cs) || callsIn(sc, advances)) {
+				adv[cs.Instr] = true
+			}
+		}
+		for _, k1 := range sites {
+			n++
+			bad := ""
+			for _, k2 := range sites {
+				if engine.ReachesAvoidingFrom(k1.Block(), engine.InstrIndex(k1)+1, k2, adv, nil) {
+					bad = P.Pos(k2.Pos())
+				}
+			}
+			R.Check(bad == "", rule, c.name(f)+"|ConsumeBytes once per look-ahead", P.Pos(k1.Pos()), "no second read without an advance of the scanner in between", "after this read of literal bytes another Scanner.ConsumeBytes ("+bad+") can run without the scanner having been advanced: it starts with the stale look-ahead byte and reads one byte too few - literals larger than one block are shifted and their tail is parsed as command text")
+		}
+	}
+	R.Min(rule, "call sites of Scanner.ConsumeBytes", n, 1)
 }
